@@ -985,6 +985,8 @@ func concCases(e *env, r *rig.Rand, race bool) ([]c18ConcDesc, []c18CounterDesc)
 	nconc, per := 12, uint64(4000)
 	if e.tier == "thorough" {
 		nconc, per = 40, 10000
+	} else if race {
+		nconc, per = 3, 600 // the race detector slows everything ~10x: a small sample in the quick tier
 	}
 	for i := 0; i < nconc; i++ {
 		g := 2 + r.Intn(7)
@@ -1001,6 +1003,8 @@ func concCases(e *env, r *rig.Rand, race bool) ([]c18ConcDesc, []c18CounterDesc)
 	nk := 8
 	if e.tier == "thorough" {
 		nk = 40
+	} else if race {
+		nk = 3
 	}
 	for i := 0; i < nk; i++ {
 		g := 1 + r.Intn(8)
@@ -1346,6 +1350,32 @@ func c18child(e *env) {
 	for _, d := range ks {
 		add(runCounter(w, d, nil))
 	}
+	// gauges: publishers set integer and float gauges while /metrics is being scraped (what the
+	// batching pool's monitor and a monitoring agent do); the values read back are the last set
+	ig := metrics.AddIntGauge(fmt.Sprintf("verifc18g%d", atomic.AddInt32(&c18CounterN, 1)), nil)
+	fg := metrics.AddFloatGauge(fmt.Sprintf("verifc18f%d", atomic.AddInt32(&c18CounterN, 1)), nil)
+	var gwg sync.WaitGroup
+	gstop := int32(0)
+	for p := 0; p < 2; p++ {
+		gwg.Add(1)
+		go func(p int) {
+			defer gwg.Done()
+			for k := uint64(1); atomic.LoadInt32(&gstop) == 0 && k < 200000; k++ {
+				metrics.SetIntGauge(ig, k)
+				metrics.SetFloatGauge(fg, float64(k))
+			}
+		}(p)
+	}
+	nscr := 200
+	if e.tier != "thorough" {
+		nscr = 30
+	}
+	for k := 0; k < nscr; k++ {
+		fetchMetrics()
+	}
+	atomic.StoreInt32(&gstop, 1)
+	gwg.Wait()
+	w.Count("gauge-publishers-during-scrapes")
 	w.Shards = 8
 	c18Finish(w)
 }
